@@ -54,12 +54,44 @@ func (e *Engine) pdomOf(fn *ssa.Function) *pdomInfo {
 	if p, ok := e.pdoms[fn]; ok {
 		return p
 	}
+	info := computePdom(fn, nil)
+	e.pdoms[fn] = info
+	return info
+}
+
+// computePdom computes post-dominators w.r.t. normal returns; edges for which skip returns true are treated as absent
+// (used for branches that are infeasible under a representation invariant).
+func computePdom(fn *ssa.Function, skip func(from, to *ssa.BasicBlock) bool) *pdomInfo {
+	succs := func(b *ssa.BasicBlock) []*ssa.BasicBlock {
+		if skip == nil {
+			return b.Succs
+		}
+		var out []*ssa.BasicBlock
+		for _, s := range b.Succs {
+			if !skip(b, s) {
+				out = append(out, s)
+			}
+		}
+		return out
+	}
+	preds := func(b *ssa.BasicBlock) []*ssa.BasicBlock {
+		if skip == nil {
+			return b.Preds
+		}
+		var out []*ssa.BasicBlock
+		for _, p := range b.Preds {
+			if !skip(p, b) {
+				out = append(out, p)
+			}
+		}
+		return out
+	}
 	info := &pdomInfo{pdom: map[*ssa.BasicBlock]map[*ssa.BasicBlock]bool{}, canReturn: map[*ssa.BasicBlock]bool{}}
 	// canReturn: backward reachability from return blocks
 	var work []*ssa.BasicBlock
 	for _, b := range fn.Blocks {
 		if len(b.Instrs) > 0 {
-			if _, ok := b.Instrs[len(b.Instrs)-1].(*ssa.Return); ok {
+			if _, ok := b.Instrs[len(b.Instrs)-1].(*ssa.Return); ok && b != fn.Recover {
 				info.canReturn[b] = true
 				work = append(work, b)
 			}
@@ -68,7 +100,7 @@ func (e *Engine) pdomOf(fn *ssa.Function) *pdomInfo {
 	for len(work) > 0 {
 		b := work[len(work)-1]
 		work = work[:len(work)-1]
-		for _, p := range b.Preds {
+		for _, p := range preds(b) {
 			if !info.canReturn[p] {
 				info.canReturn[p] = true
 				work = append(work, p)
@@ -107,7 +139,7 @@ func (e *Engine) pdomOf(fn *ssa.Function) *pdomInfo {
 				continue
 			}
 			var inter map[*ssa.BasicBlock]bool
-			for _, s := range b.Succs {
+			for _, s := range succs(b) {
 				if !info.canReturn[s] {
 					continue // paths that end in panic are not normal returns
 				}
@@ -134,7 +166,6 @@ func (e *Engine) pdomOf(fn *ssa.Function) *pdomInfo {
 			}
 		}
 	}
-	e.pdoms[fn] = info
 	return info
 }
 
@@ -462,6 +493,7 @@ func sortedKeys[M ~map[string]V, V any](m M) []string {
 type Access struct {
 	Instr ssa.Instruction
 	Fn    *ssa.Function
+	Fresh bool // the struct holding the field is a fresh allocation of this function (constructor)
 	Write bool
 	Kind  string // store-field, map-update, map-delete, elem-store, copy-into, sort, append-store, load, lookup, range, len, escape:<callee>
 }
@@ -471,16 +503,19 @@ type Access struct {
 // (map update/delete, element store, copy into, in-place sort).
 func (e *Engine) fieldAccesses(f *types.Var, fns []*ssa.Function) []Access {
 	var out []Access
+	fresh := false
 	add := func(in ssa.Instruction, w bool, kind string) {
-		out = append(out, Access{Instr: in, Fn: in.Parent(), Write: w, Kind: kind})
+		out = append(out, Access{Instr: in, Fn: in.Parent(), Write: w, Kind: kind, Fresh: fresh})
 	}
 	for _, fn := range fns {
 		instrs(fn, func(in ssa.Instruction) {
+			fresh = false
 			switch x := in.(type) {
 			case *ssa.FieldAddr:
 				if fieldOf(x) != f {
 					return
 				}
+				fresh = originIsLocalAlloc(x.X)
 				for _, r := range refsOf(x) {
 					switch u := r.(type) {
 					case *ssa.Store:
@@ -595,6 +630,38 @@ func (e *Engine) writersOf(f *types.Var, fns []*ssa.Function) map[*ssa.Function]
 		}
 	}
 	return out
+}
+
+// onlyViaNilEdge: every path from instruction m to block rb passes through a nil-test of errV and leaves it on the nil edge.
+func onlyViaNilEdge(m ssa.Instruction, rb *ssa.BasicBlock, errV ssa.Value) bool {
+	fn := m.Parent()
+	for _, b := range fn.Blocks {
+		ifi, ok := b.Instrs[len(b.Instrs)-1].(*ssa.If)
+		if !ok {
+			continue
+		}
+		x, nonNilOnTrue, ok := nilTest(ifi.Cond)
+		if !ok || x != errV {
+			continue
+		}
+		nonNil, nilS := b.Succs[0], b.Succs[1]
+		if !nonNilOnTrue {
+			nonNil, nilS = nilS, nonNil
+		}
+		_ = nilS
+		// (a) all paths from m to rb go through b
+		if m.Block() != b {
+			if reachesAvoiding(m.Block(), rb, b) {
+				continue
+			}
+		}
+		// (b) rb is not reachable from the non-nil edge without passing the test again
+		if reachesAvoiding(nonNil, rb, b) {
+			continue
+		}
+		return true
+	}
+	return false
 }
 
 // isErrorType
